@@ -678,9 +678,11 @@ def deduce_layout(text: str, candidates: list = None):
 
     text = text.strip()
 
-    # No need to capture section number. Just want to check position in
-    # relation to Twp/Rge.
-    sec_mo = no_num_sec_regex.search(text)
+    # Just want to check position in relation to Twp/Rge. (Look for the
+    # word "Section" together with its number, so that a word that merely
+    # begins with or contains 'sec' -- 'Second Addition', 'intersection'
+    # -- is not taken for the first section.)
+    sec_mo = sec_regex.search(text)
     twprge_mo = twprge_regex.search(text)
 
     if not sec_mo or not twprge_mo:
